@@ -533,6 +533,126 @@ Definition rules_pinned : list (engine -> package -> res) :=
 Definition gate_pinned (E : engine) : bool :=
   forallb (fun p => forallb status (map (fun r => r E p) rules_pinned)) E.
 
+(* ------------------------------------------- the rules, read declaratively *)
+Definition svs_of (a : alg) : list svec := match a_svs a with Some l => l | None => [] end.
+Definition deps_of (a : alg) : list ref := match a_deps a with Some l => l | None => [] end.
+Definition refs_of (a : alg) : list ref := a_fb a ++ deps_of a.
+Definition events_of (p : package) : list event :=
+  match p_events p with Some e => ef_events e | None => [] end.
+
+(* quantifiers over the parts of a package *)
+Definition each_fac (p : package) (P : kind -> factory -> Prop) : Prop :=
+  forall k f, fac_of p k = Some f -> P k f.
+Definition each_alg (p : package) (P : kind -> alg -> Prop) : Prop :=
+  each_fac p (fun k f => forall a, In a (b_algs (f_bot f)) -> P k a).
+Definition each_sv (p : package) (P : svec -> Prop) : Prop :=
+  each_alg p (fun _ a => forall sv, In sv (svs_of a) -> P sv).
+Definition each_val (p : package) (P : value -> Prop) : Prop :=
+  each_sv p (fun sv => forall v, In v (s_items sv) -> P v).
+Definition each_ref (p : package) (P : ref -> Prop) : Prop :=
+  each_alg p (fun _ a => forall r, In r (refs_of a) -> P r).
+Definition each_dep (p : package) (P : kind -> ref -> Prop) : Prop :=
+  each_alg p (fun k a => forall r, In r (deps_of a) -> P k r).
+Definition each_event (p : package) (P : event -> Prop) : Prop :=
+  forall e, In e (events_of p) -> P e.
+
+(* rule 1: at least one factory; every factory has exactly the documented
+   signature (count, defaults, annotations) *)
+Definition F01 (p : package) : Prop :=
+  (exists k, has_kind p k = true) /\
+  forall k, has_kind p k = true -> params_of p k = exp_sig k.
+
+(* rule 2: base types *)
+Definition F02 (p : package) : Prop :=
+  each_fac p (fun _ f => b_isbot (f_bot f) = true) /\
+  each_alg p (fun _ a => a_isalg a = true) /\
+  each_sv p (fun sv => s_issv sv = true) /\
+  each_val p (fun v => v_isval v = true) /\
+  each_ref p (fun r => r_lvl r <> LNone) /\
+  each_event p (fun e => e_isevent e = true).
+
+(* rule 3: abstract methods overridden, correct returns, version protocol --
+   the part the rule can observe ... *)
+Definition F03 (p : package) : Prop :=
+  each_fac p (fun _ f => b_algs (f_bot f) <> []) /\
+  each_alg p (fun _ a => a_name a <> None /\ a_deps a <> None /\ a_svs a <> None /\
+                         a_ver a = VerOk) /\
+  each_dep p (fun k r => dep_lvl_ok k r = true) /\
+  each_sv p (fun sv => s_name sv <> None /\ s_ver sv = VerOk) /\
+  each_val p (fun v => v_ver v = VerOk).
+(* ... and the part its docstring promises but no rule looks at *)
+Definition F03_unobserved (p : package) : Prop :=
+  each_alg p (fun _ a => a_run a = true) /\
+  each_sv p (fun sv => s_view sv = true) /\
+  each_val p (fun v => v_feat v = true).
+
+(* rule 4: no "." in names *)
+Definition F04 (p : package) : Prop :=
+  each_alg p (fun _ a => forall n, a_name a = Some n -> has_dot n = false) /\
+  each_sv p (fun sv => forall n, s_name sv = Some n -> has_dot n = false) /\
+  each_val p (fun v => has_dot (v_key v) = false).
+
+(* rule 5: a state vector has keys *)
+Definition F05 (p : package) : Prop := each_sv p (fun sv => s_items sv <> []).
+
+(* rule 6: in a task's previous(), impl belongs to the package of factory *)
+Definition F06 (E : engine) (p : package) : Prop :=
+  forall f, p_task p = Some f -> forall a, In a (b_algs (f_bot f)) ->
+  forall r, In r (deps_of a) ->
+  exists i k, r_fac r = Some (i, k) /\ i < length E /\ r_impl_home r = i.
+
+(* rule 7: values can be pickled *)
+Definition F07 (p : package) : Prop := each_val p (fun v => v_pick v = true).
+
+(* rule 8: the slots of a reference have the documented types *)
+Definition F08 (p : package) : Prop :=
+  each_ref p (fun r => r_fac r <> None /\ r_impl_ok r = true /\
+                       (r_lvl r = LSv \/ r_lvl r = LV -> r_item_ok r = true) /\
+                       (r_lvl r = LV -> r_feat r <> None)).
+
+(* rule 9: every algorithm/analyzer/regression has a state vector *)
+Definition F09 (p : package) : Prop := each_alg p (fun _ a => svs_of a <> []).
+
+(* rule 10: exactly one of boot/day/dom/dow, of the right type; a time of day
+   unless it is a boot event *)
+Definition moment_follows (m : moment) : Prop :=
+  ((m_boot m <> None /\ m_day m = MNone /\ m_dom m = MNone /\ m_dow m = MNone) \/
+   (m_boot m = None /\ m_day m = MGood /\ m_dom m = MNone /\ m_dow m = MNone /\ m_time m = MGood) \/
+   (m_boot m = None /\ m_day m = MNone /\ m_dom m = MGood /\ m_dow m = MNone /\ m_time m = MGood) \/
+   (m_boot m = None /\ m_day m = MNone /\ m_dom m = MNone /\ m_dow m = MGood /\ m_time m = MGood)).
+Definition F10 (p : package) : Prop :=
+  each_event p (fun e => moment_follows (e_moment e)).
+
+(* rule 11: the factory of the reference produces an algorithm of impl's name
+   that holds every value the reference denotes *)
+Definition resolves (E : engine) (r : ref) : Prop :=
+  exists i k f a, r_fac r = Some (i, k) /\ factory_at E i k = Some f /\
+    In a (b_algs (f_bot f)) /\ a_name a = Some (r_impl_name r) /\
+    forall it feat, In (it, feat) (expand r) ->
+      exists sv ft v, In sv (svs_of a) /\ s_name sv = Some (i_name it) /\
+                      feat = Some ft /\ In v (s_items sv) /\ v_key v = ft.
+Definition F11 (E : engine) (p : package) : Prop := each_ref p (resolves E).
+
+(* what the gate can observe of the rules *)
+Definition follows_obs_pkg (E : engine) (p : package) : Prop :=
+  F01 p /\ F02 p /\ F03 p /\ F04 p /\ F05 p /\ F06 E p /\ F07 p /\ F08 p /\ F09 p /\
+  F10 p /\ F11 E p.
+Definition follows_obs (E : engine) : Prop := forall p, In p E -> follows_obs_pkg E p.
+(* the rules as documented *)
+Definition follows (E : engine) : Prop :=
+  follows_obs E /\ forall p, In p E -> F03_unobserved p.
+
+(* side conditions under which the code's name-based tests mean what the
+   rules say: names are unique where the architecture needs them unique, and
+   no package name is a string prefix of another one (rule 6 uses startswith) *)
+Definition uniq_pkg (p : package) : Prop :=
+  each_fac p (fun _ f => NoDup (map a_name (b_algs (f_bot f)))) /\
+  each_alg p (fun _ a => NoDup (map s_name (svs_of a))).
+Definition uniq (E : engine) : Prop := forall p, In p E -> uniq_pkg p.
+Definition prefix_free (E : engine) : Prop :=
+  forall i j pi pj, nth_error E i = Some pi -> nth_error E j = Some pj ->
+    prefixb (p_name pi) (p_name pj) = true -> i = j.
+
 (* ------------------------------------------------------ smoke examples *)
 Module GateExamples.
   Definition n (l : list nat) : name := l.
